@@ -3,6 +3,7 @@ package main
 import (
 	"fmt"
 	"math"
+	"math/big"
 	"regexp"
 	"strconv"
 	"strings"
@@ -338,6 +339,32 @@ func evalWith(expr string, m string, binds []binding) (out string, result []stri
 	return
 }
 
+// constValue decodes a constant lexeme of the expression language: decimal integers exactly (64-bit),
+// numbers with a fraction or exponent as the nearest float32, quoted strings with doubled quotes,
+// TRUE / FALSE.  ok = false when the value is not representable (an error is the only honest answer).
+func constValue(lex string) (*variants.Variant, bool) {
+	up := strings.ToUpper(lex)
+	switch {
+	case up == "TRUE":
+		return vBool(true), true
+	case up == "FALSE":
+		return vBool(false), true
+	case strings.HasPrefix(lex, "'"):
+		return vStr(strings.ReplaceAll(lex[1:len(lex)-1], "''", "'")), true
+	case strings.ContainsAny(lex, ".eE"):
+		f, err := strconv.ParseFloat(lex, 32)
+		if err != nil {
+			return nil, false
+		}
+		return vFloat(float32(f)), true
+	}
+	n, ok := new(big.Int).SetString(lex, 10)
+	if !ok || !n.IsInt64() {
+		return nil, false
+	}
+	return vInt(int(n.Int64())), true
+}
+
 // Go-side reference: evaluate the abstract tree directly with the manager's operations
 func (e *ex) evalRef(ops variants.IVariantOperations, m string, binds []binding) (*variants.Variant, string) {
 	bin := func(f func(a, b *variants.Variant) (*variants.Variant, error)) (*variants.Variant, string) {
@@ -357,11 +384,12 @@ func (e *ex) evalRef(ops variants.IVariantOperations, m string, binds []binding)
 	}
 	switch e.k {
 	case 'c':
-		o := runParser(e.text)
-		_ = o
-		p := parsers.NewExpressionParser()
-		p.ParseString(e.text)
-		return p.InitialTokens()[0].Value(), ""
+		// the value a constant denotes, decoded independently of the library
+		v, ok := constValue(e.text)
+		if !ok {
+			return nil, "CONST_OUT_OF_RANGE"
+		}
+		return v, ""
 	case 'v':
 		name := e.text
 		if strings.HasPrefix(name, "\"") {
@@ -516,6 +544,8 @@ func runEvalCase(c *Ctx, e *ex, expr string, m string, binds []binding, label st
 	if c.Prop == "C01" {
 		reuseEval(c, m, evalStep{expr, binds}, out)
 	}
+	// the whole pipeline from text in the model: trim, tokenize, lexical analysis, syntax analysis, evaluation
+	c.model(strings.TrimSpace(fmt.Sprintf("calc %s %s ; %s", m, strRunes(expr), bindsStr(binds))), out, "model-host")
 	if perr != "" {
 		if e != nil {
 			c.fail(Failure{Kind: "oracle", Op: opLabel, Impl: out, Note: fmt.Sprintf("well-formed expression %q was rejected", expr)})
@@ -563,6 +593,7 @@ func propC01(c *Ctx) {
 			runEvalCase(c, e, expr, m, binds, fmt.Sprintf("tree:mode%d", mode))
 		}
 	}
+	propLiterals(c)
 	// operator-pair matrix: a op1 b op2 c for every ordered pair of binary operators
 	vals := []string{"7", "2", "3"}
 	for _, o1 := range binOps {
@@ -578,8 +609,104 @@ func propC01(c *Ctx) {
 	c.Notes = append(c.Notes, fmt.Sprintf("%d random syntax trees (depth 1..5, thorough up to 10; all 21 binary operators, NOT, unary sign, IS [NOT] NULL, calls of arity 0..3, indexes) each printed with minimal, random and full parenthesisation, random spacing/comments/keyword case, evaluated under random assignments of integer/long/float/double/string/boolean/null/array/time values with both managers; plus the full operator-pair matrix a op1 b op2 c in both nestings; oracle = direct evaluation of the tree with the manager's own operations", n))
 }
 
+// numeric constants: the model's exact decimal -> int64 / binary32 decoding and the calculator against strconv
+func runLitCase(c *Ctx, lex string) {
+	op := "lit " + strRunes(lex)
+	c.record(op, len(lex) >= 3)
+	c.count("literal")
+	want := "range"
+	if v, ok := constValue(lex); ok {
+		want = encVariant(v)
+	}
+	// the calculator on the bare constant
+	got := safeCallT(3*time.Second, func() string {
+		calc := calculator.NewExpressionCalculator()
+		if err := calc.SetExpression(lex); err != nil {
+			return "range"
+		}
+		r, err := calc.Evaluate()
+		if err != nil {
+			return "err " + errCode(err)
+		}
+		return encVariant(r)
+	})
+	if got != want {
+		c.fail(Failure{Kind: "oracle", Op: "evalx u " + strRunes(lex) + " ;", Impl: got, Spec: want, Note: fmt.Sprintf("the constant %s evaluates to %s; it denotes %s", lex, got, want)})
+		return
+	}
+	c.model(op, want, "model")
+}
+
+func propLiterals(c *Ctx) {
+	n := 3000
+	if c.Thorough {
+		n = 200000
+	}
+	fixed := []string{"0", "007", "9007199254740993", "9223372036854775807", "9223372036854775808", "99999999999999999999", "4611686018427387905",
+		"0.1", "0.3", "1.", ".5", "1e38", "3.4028235e38", "3.4028236e38", "3.40282356779733661637539395458142568447e38", "3.40282356779733661637539395458142568448e38",
+		"1e39", "1e400", "1e-45", "7e-46", "7.1e-46", "7.006492321624085e-46", "7.006492321624086e-46", "1.1754943508222875e-38", "1.1754942e-38", "1e-50", "0e999", "0.0e-999",
+		"16777217.0", "16777217.000000001", "33554433.5", "33554434.5", "123456789.125", "1.00000017881393421514957253748434595763683319091796875", "1.0000001788139343", "1.0000001788139342",
+		"2e3", "2E+3", "2e-3", "00001.50000", "1e0", "1e+00038", "340282346638528859811704183484516925440.0", "340282356779733661637539395458142568447.9", "340282356779733661637539395458142568448.0"}
+	for _, f := range fixed {
+		runLitCase(c, f)
+	}
+	digits := func(k int) string {
+		b := make([]byte, k)
+		for i := range b {
+			b[i] = byte('0' + c.Rng.Intn(10))
+		}
+		return string(b)
+	}
+	for i := 0; i < n; i++ {
+		var s string
+		switch c.Rng.Intn(8) {
+		case 0: // integers around 2^53 and 2^63
+			base := []uint64{1 << 53, 1<<63 - 1, 1 << 62, 1 << 24, 1 << 31}[c.Rng.Intn(5)]
+			s = strconv.FormatUint(base+uint64(c.Rng.Intn(5))-2, 10)
+		case 1:
+			s = digits(1 + c.Rng.Intn(22))
+		case 2: // float32 midpoints: (2k+1) * 2^e printed exactly, then nudged in the last place
+			k := uint64(1<<23 + c.Rng.Intn(1<<23))
+			mid := new(big.Float).SetPrec(200).SetUint64(2*k + 1)
+			e := c.Rng.Intn(60) - 40
+			mid.SetMantExp(mid, e)
+			s = mid.Text('f', 70)
+			if strings.Contains(s, ".") {
+				s = strings.TrimRight(s, "0")
+			}
+			if strings.HasSuffix(s, ".") {
+				s += "0"
+			}
+			switch c.Rng.Intn(3) {
+			case 0:
+				s += "1"
+			case 1: // just below: drop the last digit (rounds the text down)
+				if len(s) > 3 {
+					s = s[:len(s)-1]
+				}
+			}
+		case 3: // scientific with random exponent incl. the edges of the range
+			s = digits(1+c.Rng.Intn(9)) + "." + digits(c.Rng.Intn(9)) + []string{"e", "E"}[c.Rng.Intn(2)] + []string{"", "+", "-"}[c.Rng.Intn(3)] + strconv.Itoa(c.Rng.Intn(50))
+		case 4:
+			s = digits(1+c.Rng.Intn(12)) + "." + digits(c.Rng.Intn(30))
+		case 5:
+			s = "." + digits(1+c.Rng.Intn(50))
+		case 6: // near the subnormal boundary and the smallest subnormal
+			s = digits(1) + "." + digits(c.Rng.Intn(12)) + "e-" + strconv.Itoa(36+c.Rng.Intn(12))
+		default: // near overflow
+			s = "3.4028" + digits(c.Rng.Intn(12)) + "e38"
+		}
+		runLitCase(c, s)
+	}
+	c.Notes = append(c.Notes, fmt.Sprintf("%d numeric constants (integers around 2^24, 2^53, 2^63 and of 1..22 digits; decimals and scientific forms; exact float32 midpoints and their neighbours in the last place; the subnormal and overflow boundaries) evaluated by the calculator and compared with strconv.ParseInt / ParseFloat(.., 32) and with the model's exact decoding (lit)", n+len(fixed)))
+}
+
 func replayEval(c *Ctx, op string) {
 	if replaySeq(c, op) {
+		return
+	}
+	if f := strings.Fields(op); len(f) == 2 && f[0] == "lit" {
+		runLitCase(c, string(parseRunes(f[1])))
 		return
 	}
 	f := strings.Fields(op)
